@@ -3,6 +3,7 @@
 //   drive_boxes random <seed> <n> <out.ndjson>
 // Integer (half-integer) lattices: TLC sees doubled integer coordinates.
 #include "vh.hpp"
+#include <Eigen/Geometry>
 #include <limits>
 #include "romea_core_common/math/Interval.hpp"
 #include "romea_core_common/containers/boundingbox/AxisAlignedBoundingBox.hpp"
@@ -115,6 +116,80 @@ static void boxes(vh::Rng & r, vh::Out & out)
     out.put(vh::Ev("obb").vec("c2", c2).vec("h2", h2).mat("Q", Q).i("den", den).vec("p2", p2).b("inside", obb.isInside(half(p2)))
       .vec("ahden", ahden).vec("ac2", ac2).b("exact", ok));
   }
+}
+
+// Generic oriented boxes: real-valued rotations - among them rotations by a few micro-radians - half-extents over six orders of
+// magnitude (elongated and near-cubic boxes), real-valued centres.  The derived axis-aligned box must reach exactly as far as the
+// corners do along every axis (it encloses the box and is tight): residual of its half-extent against sum_n |R(i,n)| h(n), computed
+// in long double from the matrix, extents and centre the box was given, in units of one rounding of that reach.  Membership is
+// compared with the box-frame test wherever the point is not within rounding of a face.
+template<class S, size_t DIM>
+static void genericObb(vh::Rng & r, vh::Out & out)
+{
+  using P = Eigen::Matrix<S, DIM, 1>;
+  using M = Eigen::Matrix<S, DIM, DIM>;
+  auto uni = [&](double a, double b) {return a + (b - a) * ((double)r.range(0, 1000000000) / 1e9);};
+  auto angle = [&]() {
+      int st = (int)r.range(0, 4);
+      double a = st == 0 ? uni(-M_PI, M_PI) : st == 1 ? std::pow(10.0, uni(-9, -2)) * (r.coin() ? 1 : -1) :
+        st == 2 ? (double)r.range(-4, 4) * M_PI / 2 + std::pow(10.0, uni(-9, -3)) : st == 3 ? 0.0 : uni(-0.1, 0.1);
+      return a;
+    };
+  Eigen::Matrix<double, DIM, DIM> Rd;
+  if constexpr (DIM == 2) {double a = angle(); Rd << std::cos(a), -std::sin(a), std::sin(a), std::cos(a);}
+  else {
+    Rd = (Eigen::AngleAxisd(angle(), Eigen::Vector3d::UnitZ()) * Eigen::AngleAxisd(r.coin() ? angle() : 0.0, Eigen::Vector3d::UnitY()) *
+      Eigen::AngleAxisd(r.coin() ? angle() : 0.0, Eigen::Vector3d::UnitX())).toRotationMatrix();
+  }
+  M R = Rd.template cast<S>();
+  P c, h;
+  const double hs = std::pow(10.0, uni(-2, 3));
+  const int shape = (int)r.range(0, 2);                       // elongated, near-cubic, anything
+  for (size_t a = 0; a < DIM; ++a) {
+    double f = shape == 0 ? (a == 0 ? 1.0 : std::pow(10.0, uni(-5, -1))) : shape == 1 ? uni(0.6, 1.0) : std::pow(10.0, uni(-3, 0));
+    h[a] = (S)(r.coin(1, 12) ? 0.0 : hs * f);
+    c[a] = (S)(r.coin(1, 4) ? 0.0 : uni(-10, 10) * hs);
+  }
+  if (shape == 0 && r.coin()) {std::swap(h[0], h[DIM - 1]);}
+  OrientedBoundingBox<S, DIM> obb(c, h, R);
+  auto ab = obb.toAxisAlignedBoundingBox();
+  const long double eps = std::numeric_limits<S>::epsilon();
+  auto units = [&](long double x) {long double v = std::ceil(x); return v < 1e9L ? (long long)v : 1000000000LL;};
+  long double reachRes = 0, centreRes = 0;
+  for (size_t i = 0; i < DIM; ++i) {
+    long double reach = 0;
+    for (size_t n = 0; n < DIM; ++n) {reach += std::fabs((long double)R(i, n)) * (long double)h[n];}
+    long double e = ab.getHalfWidthExtents()[i];
+    reachRes = std::max(reachRes, reach > 0 ? std::fabs(e - reach) / (eps * reach) : (e == 0 ? 0.0L : 1e9L));
+    long double cm = std::max<long double>(std::fabs((long double)c[i]), 1e-300L);
+    centreRes = std::max(centreRes, std::fabs((long double)ab.getCenterPosition()[i] - (long double)c[i]) / (eps * cm));
+  }
+  // membership: points given in the box frame (interior, near corners, outside), decided in long double from what the box was given
+  bool agree = true; int decided = 0;
+  long double big = 0; for (size_t a = 0; a < DIM; ++a) {big = std::max({big, std::fabs((long double)c[a]), (long double)h[a]});}
+  for (int k = 0; k < 40; ++k) {
+    Eigen::Matrix<long double, DIM, 1> q;
+    for (size_t a = 0; a < DIM; ++a) {
+      int st = (int)r.range(0, 5);
+      long double f = st == 0 ? uni(-0.99, 0.99) : st == 1 ? 0.97 : st == 2 ? -0.97 : st == 3 ? (r.coin() ? 1.05 : -1.05) : st == 4 ? uni(-3, 3) : 0.9;
+      q[a] = f * (long double)h[a];
+    }
+    P p;
+    for (size_t i = 0; i < DIM; ++i) {long double v = c[i]; for (size_t n = 0; n < DIM; ++n) {v += (long double)R(i, n) * q[n];} p[i] = (S)v;}
+    // the box-frame coordinates of the point actually passed
+    bool inside = true, sure = true;
+    for (size_t n = 0; n < DIM; ++n) {
+      long double v = 0; for (size_t i = 0; i < DIM; ++i) {v += (long double)R(i, n) * ((long double)p[i] - (long double)c[i]);}
+      long double d = std::fabs(v) - (long double)h[n];
+      if (std::fabs(d) < 64 * eps * (big + std::fabs(v))) {sure = false;}
+      if (d > 0) {inside = false;}
+    }
+    if (!sure) {continue;}
+    ++decided;
+    if (obb.isInside(p) != inside) {agree = false;}
+  }
+  out.put(vh::Ev("generic").i("dim", DIM).i("float", sizeof(S) == 4).b("agree", agree).i("decided", decided)
+    .vec("res", IV{units(reachRes), units(centreRes)}));
 }
 
 template<class PT, size_t CDIM>
@@ -232,6 +307,12 @@ int main(int argc, char ** argv)
       default: container<Eigen::Array3f, 3>(r, out, 11);
     }
     if (k % 2) {interval1<double>(r, out);} else {interval1<float>(r, out);}
+    switch (k % 4) {
+      case 0: genericObb<double, 2>(r, out); break;
+      case 1: genericObb<double, 3>(r, out); break;
+      case 2: genericObb<float, 2>(r, out); break;
+      default: genericObb<float, 3>(r, out);
+    }
     if (k % 50 == 49) {out.put(vh::Ev("Reset"));}
   }
   std::printf("%lld\n", out.lines);
